@@ -352,7 +352,7 @@ func (g *zoneGen) faults(names []string) {
 		}
 		switch g.r.IntN(8) {
 		case 0, 1, 2:
-			f.Kind, f.RCode = simdoh.FaultRCode, core.Pick(g.r, []int{1, 2, 2, 3, 4, 5, 5, 9, 6, 10})
+			f.Kind, f.RCode = simdoh.FaultRCode, core.Pick(g.r, []int{1, 2, 2, 3, 4, 5, 5, 9, 6, 10, 16, 32, 17, 23})
 		case 3:
 			f.Kind = simdoh.FaultTransport
 		case 4:
